@@ -32,3 +32,10 @@ impl DirtyLines {
             .collect()
     }
 }
+
+#[cfg(feature = "verif")]
+impl DirtyLines {
+    pub(crate) fn verif_flags(&self) -> Vec<bool> {
+        self.0.clone()
+    }
+}
